@@ -477,7 +477,12 @@ class WorkflowConductor(object):
 
         term_tasks = self.workflow_state.get_terminal_tasks()
 
+        # If no task has completed (i.e. workflow is canceled before any task completes),
+        # then the workflow output is rendered from the initial context.
         if not term_tasks:
+            if self.workflow_state.contexts:
+                wf_term_ctx = self.get_workflow_initial_context()
+
             return wf_term_ctx
 
         _, first_term_task = term_tasks[0:1][0]
